@@ -125,6 +125,7 @@ def literal_lemmas(ctx, q, S, rp):
     selector_choice(ctx, S)
     statics(ctx, S)
     assembler_widths(ctx, q)
+    every_instruction_is_tracked(ctx, S, rp)
 
 
 def tracker_step(ctx, q, S, rp):
@@ -133,6 +134,7 @@ def tracker_step(ctx, q, S, rp):
     shapes = {
         "TypeInt": ("type", [("LiteralBit32", z3.BitVec("bits", 32)), ("LiteralBit32", z3.BitVec("sign", 32))]),
         "TypeFloat": ("type", [("LiteralBit32", z3.BitVec("fbits", 32))]),
+        "TypeFloat+encoding": ("type", [("LiteralBit32", z3.BitVec("fbits", 32)), ("FPEncoding", z3.BitVec("fenc", 32))]),
         "TypeVoid": ("type", []),
         "IAdd": ("value", [("IdRef", z3.BitVec("a", 32)), ("IdRef", z3.BitVec("b", 32))]),
         "Constant": ("value", [("LiteralBit32", z3.BitVec("c", 32))]),
@@ -143,7 +145,8 @@ def tracker_step(ctx, q, S, rp):
     rid = z3.BitVec("rid", 32)
     rty = z3.BitVec("rty", 32)
     probe = z3.BitVec("probe_id", 32)
-    for opname, (cls, ops_) in shapes.items():
+    for shape_name, (cls, ops_) in shapes.items():
+        opname = shape_name.split("+")[0]
         for has_rid in (True, False):
             for has_rt in ((True, False) if cls == "value" else (False,)):
                 eng = S.engine(loop_bound=4)
@@ -158,7 +161,7 @@ def tracker_step(ctx, q, S, rp):
                 ctx.functions.update(eng.stats.functions)
                 pres0, flt0, wid0, sig0 = tr.fields[0].fields
                 for r in res:
-                    tag = "track/%s/rid=%s,rtype=%s" % (opname, has_rid, has_rt)
+                    tag = "track/%s/rid=%s,rtype=%s" % (shape_name, has_rid, has_rt)
                     if r.status != "return":
                         st, m = q.check(r.pc, "track-panic")
                         ctx.ob(tag + "/no-panic", st == "unsat" or (False if st == "sat" else None), str(r.info))
@@ -193,7 +196,7 @@ def tracker_step(ctx, q, S, rp):
                     st, m = q.check(r.pc + [z3.Or(*[x != y for x, y in zip(a, b)])], "track-step")
                     ctx.ob(tag, st == "unsat" or (False if st == "sat" else None))
                     if st == "sat":
-                        why, real = native_tracker_probe(rp, opname, has_rid, has_rt)
+                        why, real = native_tracker_probe(rp, shape_name, has_rid, has_rt)
                         if why:
                             ctx.violation("tracker/step/%s" % opname, "after tracking Op%s (result id %s, result type %s) the tracker answers differently from the reference for id %s; "
                                           "on the compiled crate: %s" % (opname, has_rid, has_rt, m.eval(probe, model_completion=True), why), {"cmd": real.get("cmd"), "real": real})
@@ -201,11 +204,56 @@ def tracker_step(ctx, q, S, rp):
                             ctx.inconclusive.append((tag, "model-only deviation of the tracker step; the compiled crate sizes the following literal as the reference says (%s)" % str(real)[:160]))
 
 
+def every_instruction_is_tracked(ctx, S, rp):
+    """'the types declared EARLIER' are all earlier instructions: `Parser::parse` (MIR, the consumer and parse_inst summarised as in
+    C14) hands every parsed instruction to `TypeTracker::track` before delivering it — also inside function bodies. A path that
+    delivers an untracked instruction is confirmed natively: an OpSwitch on a 64-bit value defined INSIDE a function."""
+    import c14
+    fn = S.mf.get("parse", file_hint="parser.rs", kind="fn")
+    eng = sym.Engine([S.mf], S.registry, models=c14.mk_models(), inline=[r"^Action::consume$", r"^Decoder::<'_>::(offset|has_limit|limit_reached)$"],
+                     eager=True, loop_bound=4, hints={"consume": "parser.rs"})
+    try:
+        res = eng.run(fn, [sym.Sym("parser", "Parser")])
+    except mir.Unsupported as ex:
+        ctx.ob("tracking/encodable", None, "Parser::parse cannot be encoded: %s" % str(ex)[:200])
+        res = []
+    untracked = None
+    for r in res:
+        if r.status != "return":
+            continue
+        ev = [e for e in r.events if e[0] in ("outcome", "track", "cb")]
+        for k, e in enumerate(ev):
+            if e[0] == "cb" and e[1] == "instruction":
+                # the event before the delivery must be the tracking of the same instruction
+                if not (k > 0 and ev[k - 1][0] == "track"):
+                    untracked = [x[1] if len(x) > 1 else x[0] for x in ev][:12]
+                    break
+        if untracked:
+            break
+    le = c03.le
+    body = le(4 << 16 | 21) + le(1) + le(64) + le(0) + le(2 << 16 | 19) + le(7) + le(3 << 16 | 33) + le(8) + le(7) + \
+        le(5 << 16 | 54) + le(7) + le(10) + le(0) + le(8) + le(2 << 16 | 248) + le(11) + le(5 << 16 | 128) + le(1) + le(2) + le(3) + le(4) + \
+        le(6 << 16 | 251) + le(2) + le(11) + le(5) + le(6) + le(11) + le(1 << 16 | 56)
+    cmd = "parse_script %s C" % (c03.HEADER + body)
+    real = rp.ask(cmd)
+    sw = [e for e in real.get("events", []) if e.startswith("instruction Switch")]
+    native_ok = real.get("result") == "Ok" and sw and "LiteralBit64" in sw[0]
+    if native_ok and not untracked:
+        ctx.ob("tracking/every-delivered-instruction-was-tracked", True if res else None)
+    elif not native_ok:
+        ctx.ob("tracking/every-delivered-instruction-was-tracked", False, "native: %s" % str(real)[:200])
+        ctx.violation("tracker/not-fed-inside-functions", "an OpSwitch on a 64-bit value defined inside a function body does not read two-word case literals: result %s, %s%s" % (
+            real.get("result"), sw[:1], ("; in the model of Parser::parse an instruction is delivered without having been tracked: %s" % untracked) if untracked else ""),
+            {"cmd": cmd, "real": real})
+    else:
+        ctx.ob("tracking/every-delivered-instruction-was-tracked", None, "in the model an instruction is delivered untracked (%s) but the native probe is parsed correctly" % untracked)
+
+
 def native_tracker_probe(rp, opname, has_rid, has_rt):
     """The observable effect of one tracker step on the compiled crate: the width the parser gives to a literal that depends on
     the tracked id afterwards. Only grammar-conforming shapes can be fed to the real parser. -> (deviation | None, answer)"""
     le = c03.le
-    conforming = {"TypeInt": (True, False), "TypeFloat": (True, False), "TypeVoid": (True, False), "IAdd": (True, True), "Constant": (True, True), "Label": (True, False)}
+    conforming = {"TypeInt": (True, False), "TypeFloat": (True, False), "TypeFloat+encoding": (True, False), "TypeVoid": (True, False), "IAdd": (True, True), "Constant": (True, True), "Label": (True, False)}
     if conforming.get(opname) != (has_rid, has_rt):
         return None, {"note": "the shape is not grammar-conforming: no native probe"}
     int64 = le(4 << 16 | 21) + le(1) + le(64) + le(0)
@@ -215,6 +263,8 @@ def native_tracker_probe(rp, opname, has_rid, has_rt):
         body, want = int64 + le(5 << 16 | 43) + le(1) + le(2) + le(5) + le(6), "LiteralBit64"
     elif opname == "TypeFloat":
         body, want = le(3 << 16 | 22) + le(1) + le(64) + le(5 << 16 | 43) + le(1) + le(2) + le(5) + le(6), "LiteralBit64"
+    elif opname == "TypeFloat+encoding":
+        body, want = le(4 << 16 | 22) + le(1) + le(64) + le(0) + le(5 << 16 | 43) + le(1) + le(2) + le(5) + le(6), "LiteralBit64"
     elif opname == "TypeVoid":
         body, want = le(2 << 16 | 19) + le(1) + le(4 << 16 | 43) + le(1) + le(2) + le(5), "LiteralBit32"
     elif opname == "IAdd":
